@@ -360,6 +360,9 @@ def run(ctx):
     time_fn_model(ctx, "R19.t")
     from checks.shared import no_shared_mutable_class_state
     no_shared_mutable_class_state(ctx, "R19.s")
+    ctx.rule("R19.m", "the hash behind time-dependent draws is a function of its inputs alone: numbergen.Hash.__call__ keeps no per-instance state keyed by anything but the inputs themselves "
+                      "(a key that passes through hash(), id(), int(), ... lets two times share an entry: the value at t depends on the visiting order)", floor=1)
+    hash_memo_is_exact(ctx, "R19.m")
     from checks.c13 import value_reporters_agree
     value_reporters_agree(ctx, "R19.v")
     from checks.shared import dynamic_set_model
@@ -411,3 +414,52 @@ def hash_state_agreement(ctx, rule):
                  key=hset.qualname + "::digest-inputs-differ", input="gen = UniformRandom(seed=42); copy.deepcopy(gen)() != gen() at the same time")
     else:
         ctx.ok(rule, hset, hset.node, "__init__ and __setstate__ feed the md5 state the same %d input(s)" % len(f_init))
+
+
+def hash_memo_is_exact(ctx, rule):
+    """numbergen.Hash.__call__ gives the value a generator draws at time t: it must be a function of its inputs alone,
+    whatever was asked before.  The body may keep a per-instance memo only if the memo is keyed by the inputs
+    THEMSELVES; a key that passes through a lossy function -- hash() (hash(-1) == hash(-2)), id(), int(), float(),
+    round(), str(), repr(), len() -- lets two different times share an entry: the value at t then depends on which of
+    them was visited first.  Every subscript / get / setdefault on state reached through self is examined; local names
+    are followed to their definitions."""
+    f = ctx.repo.func("numbergen.Hash.__call__")
+    selfname = f.params[0]
+    inputs = {a.arg for a in f.node.args.args[1:]} | ({f.node.args.vararg.arg} if f.node.args.vararg else set())
+    LOSSY = {"hash", "id", "int", "float", "round", "str", "repr", "len", "abs", "bool"}
+    defs = {}
+    for st in ast.walk(f.node):
+        if isinstance(st, ast.Assign):
+            for t in st.targets:
+                if isinstance(t, ast.Name):
+                    defs.setdefault(t.id, []).append(st.value)
+
+    def on_self(e):
+        return isinstance(e, ast.Attribute) and isinstance(e.value, ast.Name) and e.value.id == selfname
+
+    def lossy(e, depth=0):
+        for c in ast.walk(e):
+            if isinstance(c, ast.Call) and norm(c.func).rsplit(".", 1)[-1] in LOSSY:
+                return norm(c)
+            if isinstance(c, ast.Name) and isinstance(c.ctx, ast.Load) and c.id in defs and c.id not in inputs and depth < 3:
+                for d in defs[c.id]:
+                    r = lossy(d, depth + 1)
+                    if r:
+                        return r
+        return None
+    keyed = []
+    for n in ast.walk(f.node):
+        if isinstance(n, ast.Subscript) and on_self(n.value):
+            keyed.append((n, n.slice))
+        if isinstance(n, ast.Call) and isinstance(n.func, ast.Attribute) and n.func.attr in ("get", "setdefault", "pop", "__getitem__", "__setitem__", "__contains__") and on_self(n.func.value) and n.args:
+            keyed.append((n, n.args[0]))
+        if isinstance(n, ast.Compare) and any(isinstance(op, (ast.In, ast.NotIn)) for op in n.ops) and any(on_self(c) for c in n.comparators):
+            keyed.append((n, n.left))
+    bad = [(n, k, lossy(k)) for n, k in keyed if lossy(k)]
+    if bad:
+        n, k, why = bad[0]
+        ctx.fail(rule, f, n, "Hash.__call__ keeps per-instance state keyed by `%s`, which passes through `%s`: different inputs can share an entry (CPython: hash(-1) == hash(-2), also for Fraction), "
+                             "so the value a generator draws at time t depends on which of the colliding times was visited first and differs from a fresh generator with the same name and seed" % (
+                                 norm(k)[:50], why[:40]), key=f.qualname + "::lossy-memo-key", input="g = UniformRandom(name='n', seed=1, time_dependent=True); visit t=-1 then t=-2 vs t=-2 then t=-1")
+    else:
+        ctx.ok(rule, f, f.node, "Hash.__call__ %s" % ("keeps no per-instance state keyed by its inputs" if not keyed else "keys its per-instance state by the inputs themselves (%d site(s))" % len(keyed)))
